@@ -334,7 +334,7 @@ DIRECT_EXTRA = {
     "C19": {"fifo-deeper-level", "fifo-expired-kept", "fifo-not-oldest", "fifo-within-limits"},
     "C12": {"impl-iter", "impl-iter-rev", "point-read", "bloom-false-negative", "readpaths"},
     "C11": {"config-diff"}, "C08": {"resolve", "dangling-pointer", "config-diff"}, "C09": {"gc-stats", "gc-ghost", "stale-bytes", "dead-file-kept", "gc-reopen", "blob-count", "dangling-pointer"},
-    "C14": {"ingest-missing"}, "C17": {"filter-unknown-item"},
+    "C14": {"ingest-missing"}, "C17": {"filter-unknown-item"}, "C10": {"corrupt-different"}, "C06": {"resolve-sv"},
 }
 
 
@@ -450,20 +450,27 @@ PROPS["C19"] = dict(engine="tree", profiles=[("fifo", 3, False), ("fifo", 1, Tru
                     relevant=lambda f: f["kind"] in ({"fifo-deeper-level", "fifo-expired-kept", "fifo-not-oldest", "fifo-within-limits", "oracle-get", "oracle-contains", "oracle-range", "agree", "inv", "reopen-diff"} | COMMON_KINDS),
                     nontrivial=lambda st: st.get("fifo_effective", 0) >= 1 and st.get("flush_steps", 0) >= 2 and st.get("gets_from_tables", 0) >= 1)
 
-PROPS["C11"] = dict(engine="multi", profiles=[("tree", 1, False), ("ingest", 1, False), ("tree", 1, True), ("drop", 1, False)], n_ops=100,
-                    quick=40, thorough=1000, k=dict(quick=(4, 3), thorough=(8, 4)),
+PROPS["C11"] = dict(engine="multi", profiles=[("tree", 1, False), ("ingest", 1, False), ("tree", 1, True), ("drop", 1, False), ("blob", 1, True)], n_ops=100,
+                    quick=50, thorough=1000, k=dict(quick=(4, 3), thorough=(8, 4)), strip_ops=("droprange",),
                     relevant=lambda f: f["kind"] in ({"config-diff", "oracle-get", "oracle-contains", "oracle-range", "oracle-prefix", "oracle-len", "oracle-first", "oracle-last", "oracle-isempty", "agree", "inv", "readpaths", "resolve", "reopen-diff", "marks"} | COMMON_KINDS),
                     nontrivial=lambda st: st.get("flush_steps", 0) >= 1 and st.get("gets_from_tables", 0) >= 1)
 
 BLOB_KINDS = {"resolve", "dangling-pointer", "gc-stats", "stale-bytes", "dead-file-kept", "gc-reopen", "blob-count"}
 PROPS["C08"] = dict(engine="multi", profiles=[("blob", 2, True), ("tree", 1, True), ("weak", 1, True), ("ingest", 1, True), ("filter", 1, True)], n_ops=110,
-                    quick=60, thorough=1500, k=dict(quick=(3, 3), thorough=(5, 5)), modes=["blobdiff"],
+                    quick=60, thorough=1500, k=dict(quick=(3, 3), thorough=(5, 5)), modes=["blobdiff"], strip_ops=("droprange",),
                     relevant=lambda f: f["kind"] in ({"config-diff", "resolve", "dangling-pointer", "oracle-get", "oracle-contains", "oracle-range", "oracle-prefix", "oracle-len", "oracle-first", "oracle-last", "oracle-isempty", "agree", "inv", "reopen-diff", "filter-unknown-item"} | COMMON_KINDS),
                     nontrivial=lambda st: st.get("flush_steps", 0) >= 1 and st.get("gets_from_tables", 0) >= 1)
 PROPS["C09"] = dict(engine="tree", profiles=[("blob", 4, True), ("filter", 1, True), ("ingest", 1, True), ("fifo", 1, True)], n_ops=130,
                     quick=200, thorough=5000,
                     relevant=lambda f: f["kind"] in (BLOB_KINDS | {"gc-ghost", "inv", "reopen-diff"} | COMMON_KINDS),
                     nontrivial=lambda st: st.get("gc_entries_checked", 0) >= 1 and st.get("merge_steps", 0) + st.get("drop_steps", 0) >= 1)
+
+PROPS["C10"] = dict(engine="corrupt", profiles=[("corrupt", 1, False)], n_ops=40, quick=24, thorough=48,
+                    relevant=lambda f: f["kind"] in ({"corrupt-different"} | COMMON_KINDS),
+                    nontrivial=lambda st: st.get("mutations", 0) >= 50 and st.get("mutations_error", 0) >= 10)
+PROPS["C06"] = dict(engine="conc", profiles=[("conc", 1, False)], n_ops=200, quick=96, thorough=3000,
+                    relevant=lambda f: f["kind"] in ({"oracle-get", "oracle-contains", "oracle-range", "latewrite-get", "latewrite-range", "resolve-sv", "agree", "inv", "marks", "reopen-diff", "readpaths", "resolve", "dangling-pointer", "gc-stats"} | COMMON_KINDS),
+                    nontrivial=lambda st: st.get("conc_flush_calls", 0) >= 2 and st.get("conc_compact_calls", 0) >= 2 and st.get("gets", 0) >= 50)
 
 TB_KINDS = {"block-bytes", "block-decode", "block-decode-back", "impl-iter", "impl-iter-rev", "point-read", "point-read-model",
             "bloom-bytes", "bloom-build", "bloom-false-negative", "bloom-decode", "bloom-contains", "encode-error", "bloom-reader-error",
@@ -539,12 +546,18 @@ def multi_engine(prop, tier, seed, count_override, coq):
     for i in range(total):
         prof, _, blob = profiles[i % len(profiles)]
         modes = spec.get("modes", ["sep", "shared"])
-        jobs.append((seed * 1000003 + i, prof, blob, modes[i % len(modes)]))
+        # every (profile, mode) combination is visited
+        jobs.append((seed * 1000003 + i, prof, blob, modes[(i // len(profiles)) % len(modes)]))
 
     def one(job):
         sd, prof, blob, mode = job
         hist = os.path.join(workdir, f"{sd}.hist")
         rc, out = sh([LSMV, "gen", prof, str(sd), str(spec["n_ops"])] + (["blob"] if blob else []), timeout=120)
+        strip = spec.get("strip_ops", ())
+        if strip:
+            # operations whose effect legitimately depends on the physical layout (drop_range
+            # removes only tables that lie entirely inside the range) are not part of this comparison
+            out = "\n".join(l for l in out.split("\n") if not l.startswith(tuple(strip))) + "\n"
         open(hist, "w").write(out)
         k = k_shared if mode == "shared" else k_sep
         prefix = os.path.join(workdir, f"{sd}-{mode}")
@@ -585,6 +598,108 @@ def multi_engine(prop, tier, seed, count_override, coq):
         for r in ex.map(one, jobs):
             all_results += r
     return finish(prop, tier, seed, spec, all_results, [], coq, workdir, t0)
+
+
+# ----------------------------------------------------------------------------- corruption enumeration (C10)
+
+def corrupt_engine(prop, tier, seed, count_override, coq):
+    """fault enumeration on persisted files: every mutation is classified against the baseline
+    read-out (identical / error / DIFFERENT / panic); DIFFERENT is a violation"""
+    spec = PROPS[prop]
+    t0 = time.time()
+    workdir = os.path.join(WORK, prop)
+    shutil.rmtree(workdir, ignore_errors=True)
+    os.makedirs(workdir, exist_ok=True)
+    n = count_override or spec[tier]
+    exhaustive = tier == "thorough"
+    jobs = []
+    for i in range(n):
+        jobs.append((seed * 1000003 + i, "blob" if i % 3 == 2 else "std"))
+
+    def one(job):
+        sd, kind = job
+        outf = os.path.join(workdir, f"c-{sd}-{kind}.txt")
+        cmd = [LSMV, "corrupt", str(sd), os.path.join(workdir, f"scratch-{sd}"), outf, kind, "exhaustive" if exhaustive else "sample", "14"]
+        rc, out = sh(cmd, timeout=3000)
+        shutil.rmtree(os.path.join(workdir, f"scratch-{sd}"), ignore_errors=True)
+        fails, stat = [], {}
+        hist = os.path.join(workdir, f"c-{sd}-{kind}.hist")
+        open(hist, "w").write(f"# corruption enumeration: harness/target/debug/lsmv corrupt {sd} <scratch> <out> {kind} {'exhaustive' if exhaustive else 'sample'} 14\n")
+        if rc != 0 or not os.path.exists(outf):
+            fails.append({"kind": "fatal", "op": -1, "snap": 0, "optext": "", "detail": out[-300:], "line": "lsmv corrupt failed"})
+            return (hist, outf, fails, [], stat)
+        ended = False
+        for line in open(outf):
+            t = line.split()
+            if not t:
+                continue
+            if t[0] == "COUNT":
+                stat[f"{t[1]}_{t[2]}"] = stat.get(f"{t[1]}_{t[2]}", 0) + int(t[3])
+                stat["mutations_" + t[2]] = stat.get("mutations_" + t[2], 0) + int(t[3])
+            elif t[0] == "TOTAL":
+                stat["mutations"] = int(t[1])
+                stat["files"] = int(t[2].split("=")[1])
+            elif t[0] == "MUT" and t[5] == "DIFFERENT":
+                fails.append({"kind": "corrupt-different", "op": -1, "snap": 0, "optext": f"{t[1]}@{t[3]}:{t[4]}",
+                              "detail": " ".join(t[6:])[:300], "line": "FAIL kind=corrupt-different " + line.strip()[:400]})
+            elif t[0] == "MUT" and t[5] == "panic":
+                stat["panics_on_corrupt_input"] = stat.get("panics_on_corrupt_input", 0) + 1
+            elif t[0] in ("BASELINE-BROKEN", "BASELINE-UNSTABLE"):
+                fails.append({"kind": "fatal", "op": -1, "snap": 0, "optext": "", "detail": line.strip(), "line": line.strip()})
+            elif t[0] == "END":
+                ended = True
+        if not ended:
+            fails.append({"kind": "truncated", "op": -1, "snap": 0, "optext": "", "detail": "no END", "line": "corrupt output truncated"})
+        return (hist, outf, fails, [], stat)
+
+    with ThreadPoolExecutor(max_workers=NPROC) as ex:
+        all_results = list(ex.map(one, jobs))
+    return finish(prop, tier, seed, spec, all_results, [], coq, workdir, t0)
+
+
+# ----------------------------------------------------------------------------- concurrent engine (C06)
+
+def conc_engine(prop, tier, seed, count_override, coq):
+    """real threads (writer, 2 readers, rotate+flush, 2 compactors incl. major) on one tree;
+    every read carries its snapshot and is decided by the writer's log alone"""
+    spec = PROPS[prop]
+    t0 = time.time()
+    workdir = os.path.join(WORK, prop)
+    shutil.rmtree(workdir, ignore_errors=True)
+    os.makedirs(workdir, exist_ok=True)
+    total = count_override or spec[tier]
+    plan = [("pub", total, False), ("pub", max(4, total // 6), True), ("pubj", max(4, total // 8), False)]
+    all_results = []
+    errs = []
+    base = seed * 1000003
+    for mi, (mode, n, blob) in enumerate(plan):
+        outdir = os.path.join(workdir, f"{mode}{'-blob' if blob else ''}")
+        os.makedirs(outdir, exist_ok=True)
+        per = max(1, (n + NPROC - 1) // NPROC)
+        procs = []
+        s = base + mi * 100000
+        end = s + n
+        while s < end:
+            c = min(per, end - s)
+            scratch = os.path.join(outdir, f"scratch-{s}")
+            cmd = [LSMV, "conc", str(s), str(c), outdir, scratch, str(spec["n_ops"]), mode] + (["blob"] if blob else [])
+            procs.append((subprocess.Popen(cmd, env=ENV, stdout=subprocess.PIPE, stderr=subprocess.STDOUT, text=True), scratch))
+            s += c
+        for p, scratch in procs:
+            try:
+                out, _ = p.communicate(timeout=1800)
+            except subprocess.TimeoutExpired:
+                p.kill(); out = "TIMEOUT (possible deadlock)"
+                errs.append("concurrent run timed out (deadlock?)")
+            if p.returncode not in (0, None):
+                errs.append(out[-300:])
+            shutil.rmtree(scratch, ignore_errors=True)
+        for trace, (fails, drifts, stat) in analyse_dir(outdir):
+            stat["conc_runs"] = 1
+            if mode == "pubj":
+                stat["conc_runs_with_preempted_writer"] = 1
+            all_results.append((trace[:-6] + ".hist", trace, fails, drifts, stat))
+    return finish(prop, tier, seed, spec, all_results, errs, coq, workdir, t0)
 
 
 # ----------------------------------------------------------------------------- tree engine
@@ -661,6 +776,30 @@ def finish(prop, tier, seed, spec, all_results, gen_errs, coq, workdir, t0):
                 f0["tbench_case"], chosen["line"],
                 "" if direct else "# no read returned a wrong item; what no longer checks: byte-level correspondence '%s' between the crate's encoder and the Coq codec (theorems C12_datablock_* are about the modelled format)\n" % f0["kind"]))
             reported.append((rp, chosen, note))
+            continue
+        if text.startswith("# corruption enumeration") or spec.get("engine") == "multi":
+            kf = match_finding(prop, text, f0, findings)
+            if kf:
+                known_hits[kf["id"]] = kf
+                continue
+            hid = hashlib.sha1((text + f0["line"]).encode()).hexdigest()[:10]
+            rp = os.path.join(EVID, "replays", f"{prop}-{hid}.hist")
+            note = "" if is_direct(prop, f0) else " no-failing-input-found"
+            open(rp, "w").write(("# replay (engine %s): re-run this history on several trees: harness/target/debug/lsmv multi <this file> <scratch> <prefix> <k> <seed> sep|shared|blobdiff\n" % spec.get("engine") if spec.get("engine") == "multi" else "") + "# failure: %s\n" % f0["line"] + text)
+            reported.append((rp, f0, note))
+            continue
+        if text.startswith("# concurrent run"):
+            # not replayable deterministically: the replay is the recorded trace itself
+            kf = match_finding(prop, text, f0, findings)
+            if kf:
+                known_hits[kf["id"]] = kf
+                continue
+            hid = hashlib.sha1((text + f0["line"]).encode()).hexdigest()[:10]
+            rp = os.path.join(EVID, "replays", f"{prop}-{hid}.trace")
+            tr = hist[:-5] + ".trace"
+            shutil.copy(tr, rp) if os.path.exists(tr) else open(rp, "w").write(text)
+            open(rp + ".txt", "w").write("%s# failure: %s\n# analyse: ocaml/runner %s\n" % (text, f0["line"], os.path.relpath(rp, ROOT)))
+            reported.append((rp, f0, ""))
             continue
         pred = lambda f, k=f0["kind"]: f["kind"] == k and relevant(f)
         small = shrink(text, workdir, pred, budget_s=90) if text else text
@@ -779,6 +918,10 @@ def run_check(prop, tier, seed, replay, count_override):
     eng = PROPS[prop]["engine"]
     if eng == "tree":
         return tree_engine(prop, tier, seed, count_override, coq)
+    if eng == "corrupt":
+        return corrupt_engine(prop, tier, seed, count_override, coq)
+    if eng == "conc":
+        return conc_engine(prop, tier, seed, count_override, coq)
     if eng == "multi":
         return multi_engine(prop, tier, seed, count_override, coq)
     print("no engine")
